@@ -291,4 +291,195 @@ theorem premium_near (a r d : Nat) :
   · have := mul_le_mul_of_nonneg_left h2 hE
     linarith [hN.2, hf.1]
 
+
+/-! ## monotonicity of rounding -/
+
+
+theorem nat_div_le_div_cross {N1 D1 N2 D2 : Nat} (h1 : 0 < D1) (h2 : 0 < D2) (h : N1 * D2 ≤ N2 * D1) :
+    N1 / D1 ≤ N2 / D2 := by
+  rw [Nat.le_div_iff_mul_le h2]
+  have a : N1 / D1 * D1 ≤ N1 := Nat.div_mul_le_self N1 D1
+  have b : N1 / D1 * D2 * D1 ≤ N2 * D1 := by nlinarith
+  exact Nat.le_of_mul_le_mul_right b h1
+
+theorem roundNE_ge_floor (N D : Nat) : N / D ≤ roundNE N D := by
+  unfold roundNE; simp only; split <;> omega
+
+theorem roundNE_le_floor_succ (N D : Nat) : roundNE N D ≤ N / D + 1 := by
+  unfold roundNE; simp only; split <;> omega
+
+/-- rounding to nearest-even is monotone in the rational argument -/
+theorem roundNE_mono {N1 D1 N2 D2 : Nat} (h1 : 0 < D1) (h2 : 0 < D2) (h : N1 * D2 ≤ N2 * D1) :
+    roundNE N1 D1 ≤ roundNE N2 D2 := by
+  have hf := nat_div_le_div_cross h1 h2 h
+  rcases Nat.lt_or_ge (N1 / D1) (N2 / D2) with hlt | hge
+  · exact le_trans (roundNE_le_floor_succ N1 D1) (le_trans hlt (roundNE_ge_floor N2 D2))
+  · have heq : N1 / D1 = N2 / D2 := le_antisymm hf hge
+    have e1 := Nat.div_add_mod N1 D1
+    have e2 := Nat.div_add_mod N2 D2
+    have r1 : N1 % D1 < D1 := Nat.mod_lt _ h1
+    have r2 : N2 % D2 < D2 := Nat.mod_lt _ h2
+    -- fractional parts are ordered: r1 * D2 ≤ r2 * D1
+    have hr : N1 % D1 * D2 ≤ N2 % D2 * D1 := by
+      have : (D1 * (N1 / D1) + N1 % D1) * D2 ≤ (D2 * (N2 / D2) + N2 % D2) * D1 := by rw [e1, e2]; exact h
+      rw [heq] at this
+      nlinarith
+    unfold roundNE
+    simp only
+    rw [heq]
+    by_cases hup : D1 < 2 * (N1 % D1) ∨ (2 * (N1 % D1) = D1 ∧ N2 / D2 % 2 = 1)
+    · have hup2 : D2 < 2 * (N2 % D2) ∨ (2 * (N2 % D2) = D2 ∧ N2 / D2 % 2 = 1) := by
+        rcases hup with hgt | ⟨heq2, hodd⟩
+        · left
+          by_contra hc
+          have : 2 * (N2 % D2) ≤ D2 := Nat.le_of_not_lt hc
+          nlinarith
+        · by_cases hc : D2 < 2 * (N2 % D2)
+          · exact Or.inl hc
+          · right
+            refine ⟨?_, hodd⟩
+            have : 2 * (N2 % D2) ≤ D2 := Nat.le_of_not_lt hc
+            have : D1 * D2 ≤ 2 * (N2 % D2) * D1 := by nlinarith
+            have : D2 ≤ 2 * (N2 % D2) := by
+              have h' : D2 * D1 ≤ 2 * (N2 % D2) * D1 := by nlinarith
+              exact Nat.le_of_mul_le_mul_right h' h1
+            omega
+      simp only [hup, hup2, if_true]; exact le_refl _
+    · simp only [hup, if_false]; split <;> omega
+
+
+theorem roundNE_exact (K D : Nat) (hD : 0 < D) : roundNE (K * D) D = K := by
+  unfold roundNE
+  simp only [Nat.mul_div_cancel _ hD, Nat.mul_mod_left]
+  rw [if_neg]; omega
+
+theorem roundNE_le_of_le {N D K : Nat} (hD : 0 < D) (h : N ≤ K * D) : roundNE N D ≤ K := by
+  have := roundNE_mono (N1 := N) (D1 := D) (N2 := K * D) (D2 := D) hD hD (Nat.mul_le_mul_right D h)
+  rwa [roundNE_exact K D hD] at this
+
+theorem le_roundNE_of_le {N D K : Nat} (hD : 0 < D) (h : K * D ≤ N) : K ≤ roundNE N D := by
+  have := roundNE_mono (N1 := K * D) (D1 := D) (N2 := N) (D2 := D) hD hD (Nat.mul_le_mul_right D h)
+  rwa [roundNE_exact K D hD] at this
+
+/-- the exponent chosen by `expOf` keeps the significand below 2^53 -/
+theorem expOf_ub (n d : Nat) (hn : 0 < n) (hd : 0 < d) :
+    ((n : ℚ) / d) / (2 : ℚ) ^ (expOf n d) < (2 : ℚ) ^ 53 := by
+  have hdq : (0 : ℚ) < d := by exact_mod_cast hd
+  have hne : (2 : ℚ) ≠ 0 := by norm_num
+  unfold expOf
+  simp only
+  split
+  · rename_i hlt
+    have hs := scale_eq n d (expGuess n d)
+    have hsd : (0 : ℚ) < scaleDen d (expGuess n d) := by exact_mod_cast scaleDen_pos hd _
+    have hq : (scaleNum n (expGuess n d) : ℚ) < (2 : ℚ) ^ 52 * scaleDen d (expGuess n d) := by exact_mod_cast hlt
+    have h0 : ((n : ℚ) / d) / (2 : ℚ) ^ (expGuess n d) < 2 ^ 52 := by
+      rw [← hs, div_lt_iff₀ hsd]; exact hq
+    have e : (2 : ℚ) ^ (expGuess n d - 1) = (2 : ℚ) ^ (expGuess n d) / 2 := by
+      rw [zpow_sub_one₀ hne]; rfl
+    rw [e, div_div_eq_mul_div]
+    have hp := two_zpow_pos (expGuess n d)
+    rw [div_lt_iff₀ hp] at h0 ⊢
+    linarith
+  · have hnl : (n : ℚ) < (2 : ℚ) ^ (Nat.log2 n + 1) := by exact_mod_cast (Nat.lt_log2_self (n := n))
+    have hdl : (2 : ℚ) ^ (Nat.log2 d) ≤ d := by exact_mod_cast Nat.log2_self_le (Nat.pos_iff_ne_zero.mp hd)
+    have e1 : (2 : ℚ) ^ (expGuess n d) = (2 : ℚ) ^ (Nat.log2 n) / ((2 : ℚ) ^ (Nat.log2 d) * 2 ^ 52) := by
+      unfold expGuess
+      rw [show ((Nat.log2 n : ℤ) - (Nat.log2 d : ℤ) - 52) = (Nat.log2 n : ℤ) + (-(((Nat.log2 d : ℕ) : ℤ)) + (-((52 : ℕ) : ℤ))) by push_cast; ring]
+      rw [zpow_add₀ hne, zpow_add₀ hne, zpow_neg, zpow_neg, zpow_natCast, zpow_natCast, zpow_natCast]
+      field_simp
+    rw [e1]
+    have hp1 : (0 : ℚ) < (2 : ℚ) ^ (Nat.log2 n) := by positivity
+    have hp2 : (0 : ℚ) < (2 : ℚ) ^ (Nat.log2 d) := by positivity
+    rw [div_div_eq_mul_div, div_lt_iff₀ hp1, div_mul_eq_mul_div, div_lt_iff₀ hdq]
+    have h2 : (n : ℚ) * (2 : ℚ) ^ (Nat.log2 d) < (2 : ℚ) ^ (Nat.log2 n + 1) * d := by
+      calc (n : ℚ) * (2 : ℚ) ^ (Nat.log2 d) ≤ n * d := mul_le_mul_of_nonneg_left hdl (by positivity)
+        _ < (2 : ℚ) ^ (Nat.log2 n + 1) * d := mul_lt_mul_of_pos_right hnl hdq
+    rw [pow_succ] at h2
+    nlinarith
+
+theorem scale_cross {n1 d1 n2 d2 : Nat} (e : ℤ) (h : n1 * d2 ≤ n2 * d1) :
+    scaleNum n1 e * scaleDen d2 e ≤ scaleNum n2 e * scaleDen d1 e := by
+  unfold scaleNum scaleDen
+  split
+  · calc n1 * (d2 * 2 ^ e.toNat) = n1 * d2 * 2 ^ e.toNat := by ring
+      _ ≤ n2 * d1 * 2 ^ e.toNat := Nat.mul_le_mul_right _ h
+      _ = n2 * (d1 * 2 ^ e.toNat) := by ring
+  · calc n1 * 2 ^ (-e).toNat * d2 = n1 * d2 * 2 ^ (-e).toNat := by ring
+      _ ≤ n2 * d1 * 2 ^ (-e).toNat := Nat.mul_le_mul_right _ h
+      _ = n2 * 2 ^ (-e).toNat * d1 := by ring
+
+/-- significand bounds of a rounded positive value: `2^52 ≤ m ≤ 2^53` -/
+theorem rnd_sig_bounds (n d : Nat) (hn : 0 < n) (hd : 0 < d) :
+    2 ^ 52 ≤ (rnd n d).m ∧ (rnd n d).m ≤ 2 ^ 53 := by
+  have hsd := scaleDen_pos hd (expOf n d)
+  have hsdq : (0 : ℚ) < scaleDen d (expOf n d) := by exact_mod_cast hsd
+  have hlb := expOf_lb n d hn hd
+  have hub := expOf_ub n d hn hd
+  rw [← scale_eq, le_div_iff₀ hsdq] at hlb
+  rw [← scale_eq, div_lt_iff₀ hsdq] at hub
+  have hlbN : 2 ^ 52 * scaleDen d (expOf n d) ≤ scaleNum n (expOf n d) := by exact_mod_cast hlb
+  have hubN : scaleNum n (expOf n d) < 2 ^ 53 * scaleDen d (expOf n d) := by exact_mod_cast hub
+  simp only [rnd, Nat.pos_iff_ne_zero.mp hn, if_false]
+  exact ⟨le_roundNE_of_le hsd hlbN, roundNE_le_of_le hsd (le_of_lt hubN)⟩
+
+/-- **rounding is monotone**: `n1/d1 ≤ n2/d2 → rnd (n1/d1) ≤ rnd (n2/d2)` -/
+theorem rnd_mono (n1 d1 n2 d2 : Nat) (hd1 : 0 < d1) (hd2 : 0 < d2) (h : n1 * d2 ≤ n2 * d1) :
+    (rnd n1 d1).val ≤ (rnd n2 d2).val := by
+  by_cases hn1 : n1 = 0
+  · subst hn1
+    have : (rnd 0 d1).val = 0 := by simp [rnd, F.val]
+    rw [this]; exact F.val_nonneg _
+  have hn1' : 0 < n1 := Nat.pos_of_ne_zero hn1
+  have hn2' : 0 < n2 := by
+    by_contra hc
+    have : n2 = 0 := by omega
+    subst this
+    have : 0 < n1 * d2 := Nat.mul_pos hn1' hd2
+    omega
+  have hd1q : (0 : ℚ) < d1 := by exact_mod_cast hd1
+  have hd2q : (0 : ℚ) < d2 := by exact_mod_cast hd2
+  have hq : (n1 : ℚ) / d1 ≤ (n2 : ℚ) / d2 := by
+    rw [div_le_div_iff₀ hd1q hd2q]; exact_mod_cast h
+  have hb1 := rnd_sig_bounds n1 d1 hn1' hd1
+  have hb2 := rnd_sig_bounds n2 d2 hn2' hd2
+  have hl1 := expOf_lb n1 d1 hn1' hd1
+  have hu2 := expOf_ub n2 d2 hn2' hd2
+  have hone : (1 : ℚ) ≤ 2 := by norm_num
+  have hne : (2 : ℚ) ≠ 0 := by norm_num
+  simp only [rnd, hn1, Nat.pos_iff_ne_zero.mp hn2', if_false, F.val] at hb1 hb2 ⊢
+  rcases lt_trichotomy (expOf n1 d1) (expOf n2 d2) with hlt | heq | hgt
+  · -- smaller binade
+    have hm1 : ((roundNE (scaleNum n1 (expOf n1 d1)) (scaleDen d1 (expOf n1 d1)) : ℕ) : ℚ) ≤ 2 ^ 53 := by
+      exact_mod_cast hb1.2
+    have hm2 : (2 : ℚ) ^ 52 ≤ ((roundNE (scaleNum n2 (expOf n2 d2)) (scaleDen d2 (expOf n2 d2)) : ℕ) : ℚ) := by
+      exact_mod_cast hb2.1
+    have hp1 := two_zpow_pos (expOf n1 d1)
+    have hp2 := two_zpow_pos (expOf n2 d2)
+    have hstep : (2 : ℚ) ^ (expOf n1 d1 + 1) ≤ (2 : ℚ) ^ (expOf n2 d2) :=
+      zpow_le_zpow_right₀ hone (by omega)
+    rw [zpow_add_one₀ hne] at hstep
+    calc _ ≤ (2 : ℚ) ^ 53 * (2 : ℚ) ^ (expOf n1 d1) := mul_le_mul_of_nonneg_right hm1 (le_of_lt hp1)
+      _ = 2 ^ 52 * ((2 : ℚ) ^ (expOf n1 d1) * 2) := by ring
+      _ ≤ 2 ^ 52 * (2 : ℚ) ^ (expOf n2 d2) := mul_le_mul_of_nonneg_left hstep (by positivity)
+      _ ≤ _ := mul_le_mul_of_nonneg_right hm2 (le_of_lt hp2)
+  · -- same binade
+    rw [heq]
+    have hm := roundNE_mono (scaleDen_pos hd1 (expOf n2 d2)) (scaleDen_pos hd2 (expOf n2 d2))
+      (scale_cross (expOf n2 d2) h)
+    have hmq : ((roundNE (scaleNum n1 (expOf n2 d2)) (scaleDen d1 (expOf n2 d2)) : ℕ) : ℚ) ≤
+        ((roundNE (scaleNum n2 (expOf n2 d2)) (scaleDen d2 (expOf n2 d2)) : ℕ) : ℚ) := by exact_mod_cast hm
+    exact mul_le_mul_of_nonneg_right hmq (le_of_lt (two_zpow_pos _))
+  · -- impossible: the smaller value cannot sit in a higher binade
+    exfalso
+    have hp1 := two_zpow_pos (expOf n1 d1)
+    have hp2 := two_zpow_pos (expOf n2 d2)
+    have hstep : (2 : ℚ) ^ (expOf n2 d2 + 1) ≤ (2 : ℚ) ^ (expOf n1 d1) :=
+      zpow_le_zpow_right₀ hone (by omega)
+    rw [zpow_add_one₀ hne] at hstep
+    rw [le_div_iff₀ hp1] at hl1
+    rw [div_lt_iff₀ hp2] at hu2
+    nlinarith
+
+
 end Pool.Float64
